@@ -113,6 +113,8 @@ class Driver:
         def on_cancel():
             rec['cancel_cb'] += 1
             world.log('pub', who=who, iid=iid, dir=direction, ev='cancel')
+            if 'cancel' in (cfg.get('raise_in') or ()):
+                raise app_exception(world, 'on_cancel of %s raises' % iid)
 
         def on_complete():
             rec['complete_cb'] += 1
